@@ -8,7 +8,7 @@ Driver for C12. Ops:
   `matchhost <host> <pattern>`  → `1` | `0`            (`martianurl.MatchHost`)
   `query <raw>`                 → `k:v,k:v…` | `-`     (`url.ParseQuery`, stably sorted by key)
 Tree tokens (prefix form):
-  `L <label> <caps b|q|s|z> <failReq> <failRes> <scope>` | `U<variant>` | `X<variant>`
+  `L <label> <caps b|q|s|z> <failReq> <failRes> <scope>` | `M <label> <caps> <failReq> <failRes> <scope> <text class>` | `U<variant>` | `X<variant>`
   `F <scope> <agg> <n> child*n` | `P <scope> <n> (<prio> child)*n` | `C <cond> <scope> <hasElse> then [else]`
   scope: `n` (absent/null) | `e` (`[]`) | string over q (request) s (response) x (anything else)
   cond:  `m:<method>` | `u:<scheme>:<host>:<path>:<query>` | `q:<name>:<value>` | `h:<name>:<value>` | `c:<name>:<value>` (hex) | `p:<port>` (decimal)
@@ -100,6 +100,11 @@ def parseNode : Nat → List String → Option (Node × List String)
   | fuel + 1, toks =>
     match toks with
     | "L" :: l :: c :: fq :: fs :: sc :: rest =>
+      match l.toNat?, parseCaps c, parseBool fq, parseBool fs, parseScope sc with
+      | some l, some c, some fq, some fs, some sc => some (.leaf l c fq fs sc, rest)
+      | _, _, _, _, _ => none
+    | "M" :: l :: c :: fq :: fs :: sc :: _eclass :: rest =>
+      -- a leaf whose error TEXT is shared with other leaves; the error VALUE is still this leaf's (the model has no texts)
       match l.toNat?, parseCaps c, parseBool fq, parseBool fs, parseScope sc with
       | some l, some c, some fq, some fs, some sc => some (.leaf l c fq fs sc, rest)
       | _, _, _, _, _ => none
